@@ -579,20 +579,31 @@ Section NoPanic.
     apply np_get_bind. intros s HJ. apply np_apply; [|exact HJ]. apply np_set_kr. apply kr_reset_inv. apply HJ.
   Qed.
 
+  Lemma kr_repeated_inv k n : kr_inv k -> kr_inv (kr_repeated k n).
+  Proof.
+    intros Hinv. unfold kr_repeated. destruct (kr_last k); try exact Hinv.
+    destruct Hinv as [Hok _]. split; [exact Hok|]. cbn. discriminate.
+  Qed.
+
+  Lemma np_after_yank n : np (edo s2 <- eget; set_kr (if is_emacs cfg then kr_repeated (e_kr s2) n else kr_reset (e_kr s2))).
+  Proof.
+    apply np_get_bind. intros s HJ. apply np_apply; [|exact HJ]. apply np_set_kr.
+    destruct (is_emacs cfg); [apply kr_repeated_inv|apply kr_reset_inv]; apply HJ.
+  Qed.
+
   Lemma np_cmd_yank n a : np (edo s <- eget; let '(k', t) := kr_yank (e_kr s) in
                               set_kr k' ;;;
                               (match t with
                                | Some text =>
                                  edit_yank U cfg text a n ;;;
-                                 (if is_emacs cfg then eret tt else (edo s2 <- eget; set_kr (kr_reset (e_kr s2))))
+                                 (edo s2 <- eget; set_kr (if is_emacs cfg then kr_repeated (e_kr s2) n else kr_reset (e_kr s2)))
                                | None => eret tt
                                end) ;;; eret Proceed).
   Proof.
     apply np_get_bind. intros s HJ. apply np_apply; [|exact HJ].
     pose proof (kr_yank_inv (e_kr s) ltac:(apply HJ)) as Hk. destruct (kr_yank (e_kr s)) as [k' t]. cbn [fst] in Hk.
     apply np_bind; [apply np_set_kr; exact Hk|]. intros _. apply np_bind; [|intros _; np_q].
-    destruct t; [|np_q]. apply np_bind; [apply np_edit_yank|]. intros _.
-    destruct (is_emacs cfg); [np_q|apply np_forget_yank].
+    destruct t; [|np_q]. apply np_bind; [apply np_edit_yank|]. intros _. apply np_after_yank.
   Qed.
 
   Lemma np_cmd_vi_yank_to m : np (edo s <- eget;
